@@ -154,9 +154,8 @@ Definition create_union_vector (st : est) (types refs : list Z) : option (Z * Z 
 (* ------------------------------------------------------------------ vtables *)
 Definition is_top_buffer (st : est) : bool := nest_id st =? 0.
 
-(* CORRECTED behaviour (fixes/C02-inline-vtable-unaligned.patch): a vtable emitted at the front is padded to
-   voffset alignment; the unchanged builder.c emits it unpadded, i.e. at an odd address after a create_struct of
-   odd size and alignment 1. *)
+(* a vtable emitted at the front is padded to voffset alignment (fix 0b32e2d, fixes/C02-inline-vtable-unaligned.patch:
+   before it the vtable landed on an odd address after a create_struct of odd size and alignment 1) *)
 Definition create_vtable (st : est) (vt : list Z) : option (Z * emit * est) :=
   if is_top_buffer st && clustering st then emit_back st vt
   else match emit_front st (vt ++ zeros (front_pad st (u32 (lenZ vt)) 2)) with
